@@ -45,14 +45,21 @@ Definition name_ltb (a b : name) : bool :=
   | NStr _, NInt _ => false
   end.
 
-(* decimal digits of a non-negative integer, as code points *)
-Fixpoint digits_fuel (f : nat) (z : Z) (acc : list Z) : list Z :=
-  match f with
-  | O => acc
-  | S f' => let acc' := (48 + z mod 10) :: acc in
-            if z <? 10 then acc' else digits_fuel f' (z / 10) acc'
+(* str(i): decimal digits as code points (most significant first, "-" for negatives) *)
+Fixpoint uint_codes (u : Decimal.uint) : list Z :=
+  match u with
+  | Decimal.Nil => []
+  | Decimal.D0 u => 48 :: uint_codes u | Decimal.D1 u => 49 :: uint_codes u
+  | Decimal.D2 u => 50 :: uint_codes u | Decimal.D3 u => 51 :: uint_codes u
+  | Decimal.D4 u => 52 :: uint_codes u | Decimal.D5 u => 53 :: uint_codes u
+  | Decimal.D6 u => 54 :: uint_codes u | Decimal.D7 u => 55 :: uint_codes u
+  | Decimal.D8 u => 56 :: uint_codes u | Decimal.D9 u => 57 :: uint_codes u
   end.
-Definition digit_codes (z : Z) : list Z := digits_fuel (S (Z.to_nat (Z.log2 z))) z [].
+Definition digit_codes (z : Z) : list Z :=
+  match Z.to_int z with
+  | Decimal.Pos u => uint_codes u
+  | Decimal.Neg u => 45 :: uint_codes u
+  end.
 
 (* _make_column_names: f"var_{i}" *)
 Definition default_name (i : Z) : name := NStr ([118; 97; 114; 95] ++ digit_codes i).
